@@ -103,6 +103,13 @@ def build_frame(panel, scale=1.0, rename=None, date_shift=0, permute=True, id_in
   if panel.get('resp_int') and scale == 1.0 and not df[panel['resp_col']].isna().any() and (df[panel['resp_col']] % 1 == 0).all() \
       and df[panel['resp_col']].abs().max() < 2 ** 62:
     df[panel['resp_col']] = df[panel['resp_col']].astype('int64')
+  if panel.get('resp_dtype') in ('Float64', 'Int64'):
+    # pandas nullable dtypes (Int64 only when the values are whole numbers)
+    col = df[panel['resp_col']]
+    if panel['resp_dtype'] == 'Float64':
+      df[panel['resp_col']] = col.astype('float64').astype('Float64')
+    elif not col.isna().any() and (col % 1 == 0).all() and col.abs().max() < 2 ** 62:
+      df[panel['resp_col']] = col.astype('int64').astype('Int64')
   if panel.get('extra_col'):
     df['unused'] = 1.5
   gd = panel.get('geo_dtype')
@@ -206,6 +213,16 @@ def base_kwargs(spec):
   for k in ('n_geos_max', 'n_pretest_max', 'sig_level', 'power_level', 'flevel', 'min_corr', 'rho_max'):
     if p.get(k) is not None:
       kw[k] = p[k]
+  if p.get('float_ints'):
+    # integer-valued fields given as floats (7.0 for 7): accepted by the parameter class
+    for k in ('n_test', 'n_designs', 'n_geos_max', 'n_pretest_max'):
+      if k in kw and k in p['float_ints']:
+        kw[k] = float(kw[k])
+  if p.get('big_upper'):
+    # an upper size bound far beyond the number of geos ("no upper limit")
+    for k in ('treatment_geos_range', 'control_geos_range'):
+      if k in kw and k in p['big_upper']:
+        kw[k] = (kw[k][0], p['big_upper'][k])
   return kw
 
 
@@ -287,17 +304,25 @@ def materialise(spec, scale=1.0, rename=None, date_shift=0, permute=True, id_int
 # ---------------------------------------------------------------------------
 # reference space
 
+def pd_NA():
+  import pandas as pd
+  return pd.NA
+
+
 class Space:
   """R1 canonicalisation, R2 eligibility, R3 admitted set, R6 legal designs, R7 constraints - from the raw inputs."""
 
   def __init__(self, df, elig_rows, kwargs, resp_col):
     par = dict(PAR_DEFAULTS)
     par.update(kwargs)
+    for k in ('n_test', 'n_designs', 'n_geos_max', 'n_pretest_max'):
+      if isinstance(par.get(k), float) and par[k] == int(par[k]):
+        par[k] = int(par[k])               # 7.0 means 7
     self.par = types.SimpleNamespace(**par)
     # R1: canonical table
     geos = [str(g) for g in df['geo'].tolist()]
     dates = df['date'].tolist()
-    vals = df[resp_col].tolist()
+    vals = [float('nan') if v is None or v is pd_NA() else float(v) for v in df[resp_col].tolist()]
     # a row whose value is missing (NaN) is a missing cell, exactly like an absent row
     keep = [i for i, v in enumerate(vals) if v == v]
     geos, dates, vals = [geos[i] for i in keep], [dates[i] for i in keep], [vals[i] for i in keep]
